@@ -89,10 +89,9 @@ func (r *zstdByteStreamChunkReader) Read() ([]byte, error) {
 	buf := make([]byte, r.readChunkSize)
 	n, err := r.decoder.Read(buf)
 	if n > 0 {
-		if err != nil && err != io.EOF {
-			err = nil
-		}
-		return buf[:n], err
+		// Defer reporting errors and end-of-file until the next
+		// call, as consumers don't expect data to accompany them.
+		return buf[:n], nil
 	}
 	return nil, err
 }
